@@ -111,7 +111,7 @@ class HangError(BaseException):
 
 
 MAX_OPS = 20000          # no scenario comes near (BSP.save: a few hundred raw writes)
-RUN_SECONDS = 60         # wall-clock limit of one call into the implementation (normal: milliseconds; 5x rule: the
+RUN_SECONDS = 30         # wall-clock limit of one call into the implementation (normal: milliseconds; 5x rule: the
 #                          slowest run, a BSP.save under persistent sleeping retries of a mutated tree, takes < 2 s)
 
 
@@ -998,7 +998,7 @@ def coq_run_class(ck: Ck, cls: str) -> str | None:
 def _class_runs(ck: Any, sc: dict, fresh: Callable[[str], str], ops0: list[dict], old: bytes | None, new: bytes | None,
                 init_names: set[str], raising: bool, patho: bool, pre_fail: bool, nm: 'NameMap', wtok: Callable,
                 add_case: Callable) -> None:
-    if patho or pre_fail or not (is_big(ck) or sc['kind'] in CLASS_SCENARIOS or sc['kind'].startswith('random')):
+    if patho or pre_fail or not (ck.thorough or sc['kind'] in CLASS_SCENARIOS):
         return
     bsp = bool(sc.get('bsp'))
     wks = [o['k'] for o in ops0 if o['op'] == 'write']
@@ -1332,7 +1332,7 @@ def coq_astate(a: list[str | None]) -> str:
     return coq_list('None' if v is None else f'(Some {v})' for v in a)
 
 
-def attr_case(r: dict, per_use: list[dict], names: list[str]) -> tuple[str, list[dict]] | None:
+def attr_case(r: dict, per_use: list[dict], names: list[str], objterm: str = 'aw_obj') -> tuple[str, list[dict]] | None:
     """The instance attributes of the real object after __init__, inside every body and after every __exit__ of one
     executed history -> the arguments of corr_attrs (SM/AtomicReuse.v) + what each row stands for."""
     snaps, dest = r.get('snaps') or [], r['dest']
@@ -1359,7 +1359,7 @@ def attr_case(r: dict, per_use: list[dict], names: list[str]) -> tuple[str, list
                     f'{coq_astate(m)}, {coq_astate(a)})')
         info.append(dict(use=u + 1, before=cur, body_raised=aft[0][2], exit_call_results=oracle, inside_body=m, after=a))
         cur = a
-    return f'corr_attrs aw_obj {coq_astate(init_abs)} {coq_list(rows)}', [dict(after_init=init_abs)] + info
+    return f'corr_attrs {objterm} {coq_astate(init_abs)} {coq_list(rows)}', [dict(after_init=init_abs)] + info
 
 
 def _prev_class(word: str, outcomes: list[str], u: int) -> str:
@@ -1406,8 +1406,9 @@ def history_campaign(ck: Ck, do_model: bool) -> None:
         nm = NameMap(hs)
         obj_names = list((ck.extra.get('translated', {}).get('AtomicWriter_gen', {}).get('obj') or {}).get('names', []))
 
-        def judge(r: dict, fault: Any, how: str) -> None:
-            """Oracle on every use of one executed history + one model case for the whole history."""
+        def judge(r: dict, fault: Any, how: str, objterm: str | None = 'aw_obj') -> None:
+            """Oracle on every use of one executed history + one model case for the whole history (`objterm`: the object
+            of the model, specialised to the run class of the injected exception; None: oracle only)."""
             rp = hist_replay_obj('history', hs, fault)
             per_use: list[dict] | None = []
             for u, use in enumerate(hs['uses']):
@@ -1418,9 +1419,11 @@ def history_campaign(ck: Ck, do_model: bool) -> None:
                 pos = _prev_class(hs['word'], r['outcomes'], u)
                 what = (f'history {hs["word"]}, use {u + 1} ({"body raises" if raising else "body returns"}'
                         f'{", OSError in " + op_label(hit[0]) if hit else ""}; {pos.replace("-", " ")}): ')
-                cause = f'{op_label(hit[0])}-fault' if hit else ('body-exception' if raising else 'success')
+                cause = ((f'{op_label(hit[0])}-{hit[0]["cls"].split(":")[0]}-fault' if hit[0].get('cls') else f'{op_label(hit[0])}-fault')
+                         if hit else ('body-exception' if raising else 'success'))
+                transient = isinstance(fault, dict) and fault.get('times') is not None     # refused k times, then accepted
                 exp_out = 'body' if raising else 'ok'
-                if (not hit and outc != exp_out) or (hit and (outc == 'ok' or outc.startswith(('other', 'hang')))):
+                if (not hit and outc != exp_out) or (hit and ((outc == 'ok' and not transient) or outc.startswith(('other', 'hang')))):
                     ck.violation(f'reuse:unexpected-outcome-after-{cause}:{pos}', what + f'the with statement ended with {outc}', rp)
                 d = after.get(hs['dest'])
                 if outc == 'ok' and d != news[u]:
@@ -1447,7 +1450,7 @@ def history_campaign(ck: Ck, do_model: bool) -> None:
                     ck.violation(f'reuse:entry-does-not-start-afresh:{pos}',
                                  what + f'the use starts with {first} {uops[0]["name"]} (left over from the previous use)', rp)
                 ck.seen(('history', hs['kind'], repr(fault), u))
-                if not modelled or per_use is None:
+                if not modelled or per_use is None or objterm is None:
                     continue
 
                 def wtok(n: int, o: dict, u: int = u) -> int:
@@ -1475,13 +1478,13 @@ def history_campaign(ck: Ck, do_model: bool) -> None:
                 per_use.append(dict(events=evs, listing=after, returned=outc == 'ok', cut=len(uops) + 5, exit_calls=calls,
                                     replaced=any(e[0] == 4 and e[3] == 0 for e in evs),
                                     faults=[i for i, e in enumerate(evs) if e[3] == 3]))
-            if modelled and per_use:
+            if modelled and per_use and objterm is not None:
                 # the whole history in the model: every use starts in the directory the model's previous use left
                 max_tmp = max([e[1] for pu in per_use for e in pu['events'] if e[0] != 0]
                               + [NameMap.tmp_index(b) or 0 for b in nm.init] + [1]) + 1
                 uses = coq_list(f'({scens[u]}, {pu["cut"]}, {coq_list(map(str, pu["faults"]))})' for u, pu in enumerate(per_use))
-                cases.append(dict(coq=f'corr_hist aw_obj {uses} (dir_of {nm.coq_init()}) {coq_list(nm.probe_names(max_tmp))}',
-                                  uses=per_use, nm=nm, wmap=wall, max_tmp=max_tmp, attrs=attr_case(r, per_use, obj_names),
+                cases.append(dict(coq=f'corr_hist {objterm} {uses} (dir_of {nm.coq_init()}) {coq_list(nm.probe_names(max_tmp))}',
+                                  uses=per_use, nm=nm, wmap=wall, max_tmp=max_tmp, attrs=attr_case(r, per_use, obj_names, objterm),
                                   what={'run': how, 'history': hs['kind'], 'fault': repr(fault)}))
 
         judge(base, None, 'fault-free history')
@@ -1495,6 +1498,27 @@ def history_campaign(ck: Ck, do_model: bool) -> None:
             ck.count('history_fault_runs')
             ck.hist('history_fault_op', op_label(o))
             judge(r, o['k'], f'OSError at operation {o["k"]} ({op_label(o)}) of the history')
+        # ---- round 4: an exception of a named class / KeyboardInterrupt, persistently, at every operation that is no raw
+        # write (the same operation of the later uses is refused as well: a failed use follows a failed use)
+        if nuse >= 2 and (hi % 4 == 0 or escalated(ck)):
+            for o in ops0:
+                if not o['inj'] or o['op'] == 'write':
+                    continue
+                for cls in (['PermissionError:EACCES', 'KeyboardInterrupt'] if not is_big(ck) else
+                            ['PermissionError:EACCES', 'KeyboardInterrupt', 'IsADirectoryError', 'OSError:ENOSPC']):
+                    for times in (None, 2):
+                        plan = dict(at=o['k'], cls=cls, times=times)
+                        r = run_history(hs, fresh('class'), plan=plan)
+                        nhit = sum(1 for x in r['ops'] if x['res'] == 'fault')
+                        if not nhit or (times is not None and nhit < 2):
+                            continue      # transient: only when the operation was indeed attempted again
+                        ck.count('history_class_fault_runs')
+                        ck.hist('history_class_fault', f'{op_label(o)}:{cls.split(":")[0]}:{"persistent" if times is None else "transient"}')
+                        rcls = coq_run_class(ck, cls)
+                        same = ck.extra.get('class_same_protocol', {}).get(rcls or '')
+                        judge(r, plan, f'{cls} at operation {o["k"]} ({op_label(o)}) of the history, '
+                                       f'{"persistent" if times is None else "the first 2 attempts"}',
+                              None if rcls is None else ('aw_obj' if same else f'(with_class {rcls} aw_obj)'))
         # ---- a kill before every operation of the later uses (the first use is the single-writer campaign)
         if nuse < 2 or (hi % 3 and not escalated(ck)):
             continue
@@ -1610,6 +1634,7 @@ def run_two(scs: tuple[dict, dict], root: str, prefix: list[int], init: dict[str
     sched = Sched(2)
     sim = FsSim(root, 1, fault_at, None, sched)
     outcomes = ['ok', 'ok']
+    per_use: list[list[str]] = [[], []]
     executed: list[int] = []
     enabled: list[list[int]] = []
     with sim:
@@ -1618,16 +1643,26 @@ def run_two(scs: tuple[dict, dict], root: str, prefix: list[int], init: dict[str
         def worker(w: int) -> None:
             sim.wids[threading.get_ident()] = w
             sc = scs[w]
+            # a writer is one AtomicWriter object; `uses` (round 4) makes it a reuse history: one `with` block per entry
+            uses = sc.get('uses') or [sc]
             try:
-                with AWSpy(os.path.join(root, sc['dest']), is_bytes=not sc.get('text'),
-                           **({'encoding': 'utf8'} if sc.get('text') else {})) as f:
-                    body_plain(sc)(f)
-            except BodyError:
-                outcomes[w] = 'body'
-            except OSError as e:
-                outcomes[w] = f'oserror:{type(e).__name__}'
-            except BaseException as e:
-                outcomes[w] = f'other:{type(e).__name__}:{e}'
+                aw = AWSpy(os.path.join(root, sc['dest']), is_bytes=not sc.get('text'),
+                           **({'encoding': 'utf8'} if sc.get('text') else {}))
+                for u, use in enumerate(uses):
+                    sim.use_by_w[w] = u
+                    sim.set_phase('pre')
+                    out = 'ok'
+                    try:
+                        with aw as f:
+                            body_plain(use)(f)
+                    except BodyError:
+                        out = 'body'
+                    except OSError as e:
+                        out = f'oserror:{type(e).__name__}'
+                    except BaseException as e:
+                        out = f'other:{type(e).__name__}:{e}'
+                    outcomes[w] = out
+                    per_use[w].append(out)
             finally:
                 sched.done(w)
         ths = [threading.Thread(target=worker, args=(w,), daemon=True) for w in (0, 1)]
@@ -1647,7 +1682,7 @@ def run_two(scs: tuple[dict, dict], root: str, prefix: list[int], init: dict[str
                 break
         for t in ths:
             t.join(timeout=10)
-    return dict(ops=sim.ops, outcomes=outcomes, executed=executed, enabled=enabled, listing=listing(root))
+    return dict(ops=sim.ops, outcomes=outcomes, per_use=per_use, executed=executed, enabled=enabled, listing=listing(root))
 
 
 class Pair:
@@ -1846,6 +1881,105 @@ def two_writer_campaign(ck: Ck, do_model: bool) -> None:
             'executed': nrun, 'exhaustive': exhaustive, 'boundary_pairs': npairs, 'ops': [n1, n2], 'fault_runs': nfault}
     if do_model and cases:
         eval_cases2(ck, cases)
+
+
+def product_campaign(ck: Ck) -> None:
+    """Reuse histories x concurrent writers (round 4): writer A is ONE AtomicWriter object used for a word of `with`
+    blocks (S = body returns, B = body raises, F = an OSError is injected into the rename of that use), writer B is an
+    ordinary single-use writer to another file of the same directory.  Every pair of operation boundaries (A has
+    completed k1 operations of its whole history, B k2 of its single use) is reached as A^k1 B^k2 and (thorough tier, and
+    every other pair in the quick tier) as B^k2 A^k1; then the rest runs A first.  So B is open — holds a temp name —
+    at every point of every use of A, in particular while A is entered again.  Oracle only (the model has no product of
+    histories and concurrent writers): every use of A ends as its letter says, both destinations hold the content of
+    their writer's last successful use (or the previous content), nothing is left, nothing else is touched, and no
+    writer opens, renames or removes a temp name the other writer holds."""
+    work = str(ck.scratch / 'c12_product')
+    big = is_big(ck)
+    init = {'a.bin': b'OLDA', 'b.bin': b'OLDB', 'keep.txt': b'k'}
+    words = ['SS', 'BS', 'FS'] + (['SB', 'SSS', 'FB', 'SFS'] if escalated(ck) else [])
+    B = dict(dest='b.bin', chunks=[b'B1', b'B2'])
+    variants = [(w, False) for w in words] + ([('SS', True)] if escalated(ck) else [])
+    for word, text in variants:
+        uses = []
+        for u, ch in enumerate(word):
+            chunk: Any = b'A%d' % u
+            uses.append(dict(chunks=[chunk.decode() + '\n' if text else chunk], **({'raise_after': 1} if ch == 'B' else {})))
+        A = dict(dest='a.bin', uses=uses, chunks=[], **({'text': True} if text else {}))
+        seq = run_two((A, B), work, [0] * 200, init)
+        opsA = [o for o in seq['ops'] if o['w'] == 0]
+        n1, n2 = len(opsA), sum(1 for o in seq['ops'] if o['w'] == 1)
+        # F: the rename of that use of A is refused (global number of the operation when A runs first up to there)
+        faults = [next(o['k'] for o in opsA if o['u'] == u and o['op'] == 'replace') for u, ch in enumerate(word) if ch == 'F']
+        fault_at = faults[0] if faults else None
+        seen_sched: set[tuple[int, ...]] = set()
+        nrun = 0
+        for k1 in range(n1 + 1):
+            if fault_at is not None and k1 < fault_at:
+                continue          # the fault is addressed by its number in A's own sequence: A must get there first
+            for k2 in range(n2 + 1):
+                orders = [[0] * k1 + [1] * k2]
+                if fault_at is None and (big or (k1 + k2) % 2):
+                    orders.append([1] * k2 + [0] * k1)
+                for prefix in orders:
+                    r = run_two((A, B), work, prefix + [0] * 200, init, fault_at=fault_at)
+                    ex = tuple(r['executed'])
+                    if ex in seen_sched:
+                        continue
+                    seen_sched.add(ex)
+                    nrun += 1
+                    ck.count('product_runs')
+                    ck.seen(('product', word, text, ex))
+                    ck.hist('product_word', word + ('-text' if text else ''))
+                    product_check(ck, word, A, B, init, r, fault_at)
+        ck.extra.setdefault('product', {})[word + ('-text' if text else '')] = {'runs': nrun, 'ops': [n1, n2]}
+
+
+def product_check(ck: Ck, word: str, A: dict, B: dict, init: dict[str, bytes], r: dict, fault_at: int | None) -> None:
+    lst = r['listing']
+    rp = {'mode': 'product', 'word': word, 'a': {**A, 'uses': [_hexsc(u) for u in A['uses']]}, 'b': _hexsc(B),
+          'init': {n: v.hex() for n, v in init.items()}, 'schedule': r['executed'], 'fault_at': fault_at,
+          'how': './check C12 --replay <this file>: writer 0 is one AtomicWriter object used once per letter of `word`, '
+                 'writer 1 a single-use writer; `schedule` says whose operation comes next'}
+    key = lambda what: f'two-writers-reuse:{what}:{word}'
+    hit = [o for o in r['ops'] if o['res'] == 'fault']
+    # writer A, use by use
+    expA = init.get('a.bin')
+    for u, ch in enumerate(word):
+        got = r['per_use'][0][u] if u < len(r['per_use'][0]) else '<not run>'
+        faulted = any(o['w'] == 0 and o['u'] == u for o in hit)
+        want = 'body' if ch == 'B' else 'ok'
+        if (not faulted and got != want) or (faulted and (got == 'ok' or got.startswith(('other', 'hang')))):
+            ck.violation(key('unexpected-outcome'), f'use {u + 1} ({ch}) of the reused writer ended with {got}, '
+                                                    f'B is open in between (schedule {r["executed"][:24]})', rp)
+        if got == 'ok':
+            expA = _data({**A, 'chunks': A['uses'][u]['chunks']})
+    if lst.get('a.bin') != expA:
+        ck.violation(key('destination-of-the-reused-writer-wrong'), f'a.bin holds {lst.get("a.bin")!r:.40}, expected {expA!r:.40}', rp)
+    if r['outcomes'][1] != 'ok':
+        ck.violation(key('other-writer-failed'), f'the single-use writer ended with {r["outcomes"][1]}', rp)
+    if lst.get('b.bin') != _data(B):
+        ck.violation(key('destination-of-the-other-writer-clobbered'),
+                     f'b.bin holds {lst.get("b.bin")!r:.40}, expected {_data(B)!r:.40}', rp)
+    extra = set(lst) - set(init)
+    if extra and not any(o['op'] == 'unlink' for o in hit):
+        ck.violation(key('temp-left'), f'{sorted(extra)} left', rp)
+    for n0, v0 in init.items():
+        if n0 not in ('a.bin', 'b.bin') and lst.get(n0) != v0:
+            ck.violation(key('foreign-file-touched'), f'{n0} changed', rp)
+    held: dict[int, str] = {}
+    for o in r['ops']:
+        other = 1 - o['w'] if o['w'] in (0, 1) else None
+        if other is None or NameMap.tmp_index(os.path.basename(o['name'])) is None:
+            continue
+        if o['op'] in ('open', 'replace', 'unlink') and o['res'] == 'ok' and held.get(other) == o['name'] \
+                and held.get(o['w']) != o['name']:
+            ck.violation(key(f'{o["op"]}-of-a-temp-name-the-other-writer-holds'),
+                         f'writer {o["w"]} performed {o["op"]} on {o["name"]} while writer {other} was writing to it '
+                         f'(operation {o["k"]})', rp)
+        if o['op'] == 'open' and o['res'] == 'ok':
+            held[o['w']] = o['name']
+        elif o['op'] in ('replace', 'unlink') and o['res'] == 'ok' and held.get(o['w']) == o['name']:
+            held.pop(o['w'], None)
 
 
 def _hexsc(s: dict) -> dict:
@@ -2252,7 +2386,7 @@ CORPUS_EXIT = [
 def interp_correspondence(ck: Ck) -> None:
     import ast as _ast
     import contextlib
-    nprog = budget(ck, 120, 600)
+    nprog = 600 if ck.thorough else budget(ck, 100, 160)
     progs: list[tuple[str, str]] = []          # (python source, coq term)
     rejected = 0
     sources = list(CORPUS_EXIT)
@@ -2344,37 +2478,47 @@ def interp_correspondence(ck: Ck) -> None:
 
 
 class _TheoremsInBackground:
-    """ck.theorems (Print Assumptions of every theorem of Props/C12.v: one coqc process, 8-20 s on a loaded machine) runs
-    in a thread while the instance obligations and the interpreter correspondence are evaluated; its obligations are
-    merged into ck, in order, at join() — which is called before the first campaign that forks."""
+    """What ck.theorems does (Print Assumptions of every theorem of Props/C12.v: one coqc process, 8-40 s on a loaded
+    machine), started as a separate PROCESS right after the build and collected at the end of the run, so that it costs
+    no wall time.  No thread is involved (the campaigns fork); the output goes to a file, not a pipe."""
 
     def __init__(self, ck: Ck, props: str) -> None:
-        self.ck, self.obligations, self.axioms, self.tie_broken = ck, [], {}, []
-        self.err: BaseException | None = None
-        self.thread = threading.Thread(target=self._run, args=(props,), daemon=True)
-        self.thread.start()
-
-    # the part of the Ck interface that Ck.theorems uses
-    def coq_scratch(self, body: str, name: str = 'scratch', timeout: int = 600) -> tuple[int, str]:
-        return self.ck.coq_scratch(body, name, timeout)
-
-    def obligation(self, name: str, ok: bool, detail: str = '') -> None:
-        self.obligations.append((name, ok, detail))
-
-    def _run(self, props: str) -> None:
-        try:
-            Ck.theorems(self, props)          # type: ignore[arg-type]
-        except BaseException as e:            # reported at join()
-            self.err = e
+        import re
+        import subprocess
+        from harness.common import ROCQ, _unlimit_stack
+        self.ck, self.props = ck, props
+        self.names = re.findall(r"^\s*(?:Theorem|Lemma|Corollary)\s+([A-Za-z0-9_']+)", (ROCQ / props).read_text(), re.M)
+        d = ck.scratch / 'coq_assumptions_bg'
+        d.mkdir()
+        mod = 'SV.' + props[:-2].replace('/', '.')
+        (d / 'assumptions.v').write_text(f'Require Import {mod}.\n' + ''.join(f'Print Assumptions {n}.\n' for n in self.names))
+        self.out = d / 'out.txt'
+        self.fh = open(self.out, 'w')
+        self.proc = subprocess.Popen(['coqc', '-Q', str(ROCQ), 'SV', '-Q', str(d), 'Scratch', str(d / 'assumptions.v')],
+                                     stdout=self.fh, stderr=subprocess.STDOUT, cwd=d, preexec_fn=_unlimit_stack)
+        self.done = False
 
     def join(self) -> None:
-        self.thread.join()
-        if self.err is not None:
-            self.ck.obligation('assumptions:Props/C12.v', False, f'Print Assumptions could not be run: {self.err!r}')
-        for name, ok, detail in self.obligations:
-            self.ck.obligation(name, ok, detail)
-        self.ck.axioms.update(self.axioms)
-        self.ck.tie_broken.extend(self.tie_broken)
+        import subprocess
+        from harness.common import _split_assumptions
+        if self.done:
+            return
+        self.done = True
+        ck = self.ck
+        try:
+            rc = self.proc.wait(timeout=900)
+        except subprocess.TimeoutExpired:
+            self.proc.kill()
+            rc = 124
+        self.fh.close()
+        out = self.out.read_text()
+        if rc != 0:
+            ck.obligation(f'assumptions:{self.props}', False, ('coqc timeout after 900 s' if rc == 124 else out[-2000:]))
+            ck.tie_broken.append(f'Print Assumptions failed for {self.props}')
+            return
+        for n, b in zip(self.names, _split_assumptions(out, len(self.names))):
+            ck.axioms[n] = b
+            ck.obligation(f'theorem:{n}', True, 'Qed; axioms: ' + ('none (closed under the global context)' if not b else ', '.join(b)))
 
 
 # =============================================================================================== main
@@ -2462,13 +2606,18 @@ def run(ck: Ck) -> None:
             'exit_body_exception_never_renames': allc(f'no_replace ({fl2})'),
             'exit_success_renames_after_close': allc(f'success_commits ({ok2})'),
             'exit_every_failure_path_unlinks_temp': allc(f'cleans ({ok2}) false && cleans ({fl2}) false'),
-            'exit_never_swallows_an_exception': allc(f'propagates ({ok2}) false && propagates ({fl2}) true'),
+            # (on the collapsed trees: a refused rename that is accepted at the next attempt is handled, not swallowed;
+            # that the with statement returns normally only after a rename is exit_returns_normally_iff_renamed)
+            'exit_never_swallows_an_exception': allc('propagates (x_ok cx) false && propagates (x_exc cx) true'),
             'exit_success_returns_normally': allc(f'ok_path_returns ({ok2})'),
             'exit_without_enter_does_nothing': allc('unentered_exit_is_inert o'),
             # one object, several `with` blocks (c12_reuse_* speak about an object with reuse_indep = true): whatever
             # the earlier uses left in the instance attributes, the next use runs the protocol of a fresh object
             'reuse_exit_protocol_independent_of_earlier_uses': allc('reuse_indep o'),
             'reuse_exit_always_clears_the_temp_handle': allc('exit_always_leaves o 0 VNone'),
+            # what make_tempfile does before mkdir / the temp-name loop touches nothing whenever no temp file is open
+            # (the model enters a use with mkdir): c12_entry_prologue_keyed_on_stale_name_refuted is the wrong shape
+            'reuse_entry_touches_nothing_before_creating_its_temp_file': 'entry_inert aw_obj aw_entry_prog',
             'reuse_fresh_object_is_unentered': 'init_unentered aw_obj',
             'reuse_enter_binds_handle_and_temp_name': 'enter_binds aw_obj',
             'temp_is_sibling_of_destination': 'aw_tmp_sibling',
@@ -2497,7 +2646,9 @@ def run(ck: Ck) -> None:
     finally:
         os.chdir(cwd0)
         if background is not None:
+            t1 = time.time()
             background.join()
+            ck.extra.setdefault('stage_seconds', {})['wait-for-print-assumptions'] = round(time.time() - t1, 1)
 
 
 def _campaigns(ck: Ck, built: bool, background: '_TheoremsInBackground | None' = None) -> None:
@@ -2509,11 +2660,6 @@ def _campaigns(ck: Ck, built: bool, background: '_TheoremsInBackground | None' =
     if built:
         interp_correspondence(ck)
     stage['interpreter'] = round(time.time() - t1, 1)
-    t1 = time.time()
-    if background is not None:
-        background.join()           # before anything forks
-        background.join = lambda: None      # type: ignore[method-assign]
-    stage['wait-for-print-assumptions'] = round(time.time() - t1, 1)
     t1 = time.time()
     scs = scenarios(ck)
     single_campaign(ck, scs, bool(built))
@@ -2532,6 +2678,9 @@ def _campaigns(ck: Ck, built: bool, background: '_TheoremsInBackground | None' =
     t1 = time.time()
     two_writer_campaign(ck, bool(built))
     stage['two'] = round(time.time() - t1, 1)
+    t1 = time.time()
+    product_campaign(ck)
+    stage['product'] = round(time.time() - t1, 1)
     reuse_keys = [v['key'] for v in ck.violations if v['key'].startswith('reuse:')]
     keys = {v['key'].removeprefix('bsp-save:').removeprefix('reuse:') for v in ck.violations}
     class_keys = {k for k in keys if k.startswith('errclass:')}
@@ -2564,6 +2713,8 @@ def _campaigns(ck: Ck, built: bool, background: '_TheoremsInBackground | None' =
         (bool(reuse_keys), ['instance:reuse_', 'instance:exit_without_enter', 'translate:', 'correspondence:']),
         # a refused operation of some exception class, persistent or transient, with a failing input
         (bool(class_keys), ['instance:', 'translate:', 'correspondence:']),
+        (any(k.startswith('two-writers-reuse:') for k in keys),
+         ['instance:reuse_', 'instance:exit_without_enter', 'translate:', 'correspondence:']),
     ]
     for cond, names in table:
         if cond:
@@ -2624,10 +2775,23 @@ def replay(data: dict) -> int:
                 print('after :', {k: v[:40] for k, v in lst.items()})
             else:
                 k = r['k']
-                res = run_history(hs, os.path.join(root, 'd'), fault_at=frozenset(k) if isinstance(k, list) else k)
+                if isinstance(k, dict):
+                    print('plan  :', k, '(operation `at` is refused with `cls`; times None: every further attempt as well)')
+                    res = run_history(hs, os.path.join(root, 'd'), plan=k)
+                else:
+                    res = run_history(hs, os.path.join(root, 'd'), fault_at=frozenset(k) if isinstance(k, list) else k)
                 for u, letter in enumerate(hs['word']):
                     print(f'use {u + 1} ({letter}):', [(o['op'], o['name'], o['res']) for o in res['ops'] if o['u'] == u])
                     print('   outcome:', res['outcomes'][u], ' directory:', {k: v[:40] for k, v in res['listings'][u + 1].items()})
+        elif r['mode'] == 'product':
+            A = dict(r['a']); B = dict(r['b'])
+            A['uses'] = [{**u, 'chunks': [c if A.get('text') else bytes.fromhex(c) for c in u['chunks']]} for u in A['uses']]
+            B['chunks'] = [bytes.fromhex(c) for c in B['chunks']]
+            init = {n: bytes.fromhex(v) for n, v in r['init'].items()}
+            res = run_two((A, B), os.path.join(root, 'd'), r['schedule'], init, fault_at=r.get('fault_at'))
+            print('operations:', [(o['w'], o['u'], o['op'], o['name'], o['res']) for o in res['ops']])
+            print('outcomes of the uses of writer 0:', res['per_use'][0], ' writer 1:', res['per_use'][1])
+            print('after :', res['listing'])
         elif r['mode'] == 'two':
             sa = dict(r['a']); sb = dict(r['b'])
             for s in (sa, sb):
